@@ -34,6 +34,12 @@ _W = {}
 
 
 def _worker_init(pid):
+    import gc
+
+    # garbage-collection discipline: automatic (allocation-count triggered) collections make the lifetime of weakly referenced
+    # objects depend on what ran before; the simulator collects at fixed points instead (before every scenario, every 25
+    # variants inside the fault-enumeration checks), so that GC timing is a function of the scenario alone
+    gc.disable()
     warnings.simplefilter("ignore")
     faulthandler.enable()
     mod = load_prop(pid)
@@ -45,6 +51,8 @@ def _worker_init(pid):
         from . import ctxsim
 
         ctxsim.warm_up()
+    gc.collect()
+    gc.freeze()  # everything imported so far is permanent: the per-scenario collections only look at new objects
 
 
 def _run_chunk(args):
@@ -96,6 +104,7 @@ def _run_chunk_body(args):
         faulthandler.dump_traceback_later(180, exit=True)
         try:
             scn = mod.gen(seed, tier, idx) if getattr(mod, "GEN_TAKES_INDEX", False) else mod.gen(seed, tier)
+            core.gc_point()
             res = mod.execute(scn)
         except HarnessError as e:
             faulthandler.cancel_dump_traceback_later()
@@ -135,6 +144,7 @@ def replay_scenario(pid, scn):
     if not _W.get("inited"):
         _worker_init(pid)
         _W["inited"] = True
+    core.gc_point()
     return mod.execute(scn)
 
 
@@ -153,6 +163,7 @@ def cmd_replay(path):
         for idx in range(cp["first_index"], cp["last_index"] + 1):
             seed = core.run_seed(cp["verif_seed"], pid, cp["tier"], idx)
             scn = mod.gen(seed, cp["tier"], idx) if getattr(mod, "GEN_TAKES_INDEX", False) else mod.gen(seed, cp["tier"])
+            core.gc_point()
             res = mod.execute(scn)
     elif rp["scenario"].get("pre_batch"):
         viols, _ = load_prop(pid).pre_batch("quick")
@@ -383,6 +394,7 @@ def _digest_chunk(args):
     for idx in range(i0, i1):
         seed = core.run_seed(verif_seed, pid, tier, idx)
         scn = mod.gen(seed, tier, idx) if getattr(mod, "GEN_TAKES_INDEX", False) else mod.gen(seed, tier)
+        core.gc_point()
         res = mod.execute(scn)
         out.append([idx, res.get("digest"), len(res["violations"])])
     return out
